@@ -389,6 +389,40 @@ func (sc *c14Scenario) Run(s *simrt.Sim) {
 		}
 		sc.probes["second-generator-started-with-a-value-later"]++
 	}
+	// A generator written as a do-block: the coroutine DoNotation hands to its effect serves requests like any other
+	// target, and DoNotation returns the effect's result
+	{
+		var z fpgo.CorDef[int]
+		var gen *fpgo.CorDef[int]
+		res, r1, r2 := -1, -1, -1
+		dg := s.Go("do-generator", func() {
+			h.Do("do-generator", "DoNotation", nil, func() (interface{}, error) {
+				res = z.DoNotation(func(self *fpgo.CorDef[int]) int {
+					gen = self
+					a := self.YieldRef(10)
+					b := self.YieldRef(20)
+					return a*100 + b
+				})
+				return res, nil
+			})
+		})
+		dc := s.Go("do-generator-caller", func() {
+			for gen == nil {
+				s.Sleep(time.Microsecond)
+			}
+			me := fpgo.CorNewGenerics[int](nil)
+			h.Do("do-generator-caller", "YieldFrom x2", nil, func() (interface{}, error) {
+				r1 = me.YieldFrom(gen, 1)
+				r2 = me.YieldFrom(gen, 2)
+				return nil, nil
+			})
+		})
+		if !s.WaitUntilTimeout(func() bool { return dg.Done() && dc.Done() }, 10*time.Minute) {
+			sc.extra = append(sc.extra, Violation{Clause: "hang", Fingerprint: "do-block-used-as-a-generator", Detail: fmt.Sprintf("a do-block whose coroutine serves two requests did not finish (answers %d, %d; result %d)", r1, r2, res)})
+		} else if r1 != 10 || r2 != 20 || res != 102 {
+			sc.extra = append(sc.extra, Violation{Clause: "do-notation", Fingerprint: "do-block-used-as-a-generator", Detail: fmt.Sprintf("a do-block yields 10 and 20 to a caller sending 1 and 2 and returns 100*a+b: the caller got %d, %d (want 10, 20), DoNotation returned %d (want 102)", r1, r2, res)})
+		}
+	}
 	// YieldFromIO returns the IO's value whatever the state of the coroutine object it is called on: here the
 	// target, whose effect has returned
 	{
